@@ -18,6 +18,7 @@ EXTENDS Integers, TLC
 CONSTANTS ReaderCap,   \* capacity of sc.reader (128 in the code)
           WriterCap,   \* capacity of sc.writer
           MaxWire,     \* frames the peer may have in flight at once
+          MaxResp,     \* response frames the running handlers will still cause (finite: handlers end)
           Defects
 
 VARIABLES wire,        \* frames written by the peer, not yet read by the read loop
@@ -27,84 +28,109 @@ VARIABLES wire,        \* frames written by the peer, not yet read by the read l
           reader,      \* frames queued in sc.reader
           readerClosed,\* Serve closed sc.reader
           writer,      \* frames queued in sc.writer
-          rl, sl, wl,  \* "run" | "fwd" (read loop holds a frame to hand on) | "done"
+          rl, sl, wl,  \* "run" | "fwd" (read loop holds a frame to hand on) | "write" (inside sc.write) | "done"
           handlerStop, writeStop,
+          respLeft,    \* response frames still to come from handlers
           serve        \* "run" | "wait" (readLoop returned, waiting for the write loop, bounded) | "ret"
-vars == <<wire, peerOpen, peerReads, sockClosed, reader, readerClosed, writer, rl, sl, wl, handlerStop, writeStop, serve>>
+vars == <<wire, peerOpen, peerReads, sockClosed, reader, readerClosed, writer, rl, sl, wl, handlerStop, writeStop, respLeft, serve>>
 
 Init == /\ wire = 0 /\ peerOpen = TRUE /\ peerReads = TRUE /\ sockClosed = FALSE
         /\ reader = 0 /\ readerClosed = FALSE /\ writer = 0
         /\ rl = "run" /\ sl = "run" /\ wl = "run"
-        /\ handlerStop = FALSE /\ writeStop = FALSE /\ serve = "run"
+        /\ handlerStop = FALSE /\ writeStop = FALSE /\ respLeft = MaxResp /\ serve = "run"
 
 \* ---- the peer
 PeerSend == /\ peerOpen /\ ~sockClosed /\ wire < MaxWire /\ wire' = wire + 1
-            /\ UNCHANGED <<peerOpen, peerReads, sockClosed, reader, readerClosed, writer, rl, sl, wl, handlerStop, writeStop, serve>>
+            /\ UNCHANGED <<peerOpen, peerReads, sockClosed, reader, readerClosed, writer, rl, sl, wl, handlerStop, writeStop, respLeft, serve>>
 PeerClose == /\ peerOpen /\ peerOpen' = FALSE
-             /\ UNCHANGED <<wire, peerReads, sockClosed, reader, readerClosed, writer, rl, sl, wl, handlerStop, writeStop, serve>>
+             /\ UNCHANGED <<wire, peerReads, sockClosed, reader, readerClosed, writer, rl, sl, wl, handlerStop, writeStop, respLeft, serve>>
 PeerStopsReading == /\ peerReads /\ peerReads' = FALSE
-                    /\ UNCHANGED <<wire, peerOpen, sockClosed, reader, readerClosed, writer, rl, sl, wl, handlerStop, writeStop, serve>>
+                    /\ UNCHANGED <<wire, peerOpen, sockClosed, reader, readerClosed, writer, rl, sl, wl, handlerStop, writeStop, respLeft, serve>>
 
 \* ---- read loop: read a frame; stream frames are handed to the stream loop, a connection error ends the loop
 RL_Read == /\ rl = "run" /\ wire > 0
+           /\ ("ReadLoopOutlivesStreamLoop" \in Defects \/ ~handlerStop)   \* (repaired) checked before every read
            /\ wire' = wire - 1
            /\ \/ rl' = "fwd"                     \* a frame for the stream loop
-              \/ rl' = "run"                     \* handled in place (PING ack, SETTINGS ack are queued with write(), which never blocks for good)
-              \/ rl' = "done"                    \* connection error found by the read loop: GOAWAY queued, loop returns
-           /\ UNCHANGED <<peerOpen, peerReads, sockClosed, reader, readerClosed, writer, sl, wl, handlerStop, writeStop, serve>>
+              \/ rl' = "write"                   \* answered in place: a PING ack is queued with sc.write()
+              \/ rl' = "run"                     \* nothing to do (ack frames, unknown types)
+              \/ rl' = "done"                    \* connection error found by the read loop: loop returns
+           /\ UNCHANGED <<peerOpen, peerReads, sockClosed, reader, readerClosed, writer, sl, wl, handlerStop, writeStop, respLeft, serve>>
 RL_EOF == /\ rl = "run" /\ wire = 0 /\ (~peerOpen \/ sockClosed)
+          /\ ("ReadLoopOutlivesStreamLoop" \in Defects \/ ~handlerStop)
           /\ rl' = "done"
-          /\ UNCHANGED <<wire, peerOpen, peerReads, sockClosed, reader, readerClosed, writer, sl, wl, handlerStop, writeStop, serve>>
+          /\ UNCHANGED <<wire, peerOpen, peerReads, sockClosed, reader, readerClosed, writer, sl, wl, handlerStop, writeStop, respLeft, serve>>
 RL_Forward == /\ rl = "fwd" /\ reader < ReaderCap
               /\ reader' = reader + 1 /\ rl' = "run"
-              /\ UNCHANGED <<wire, peerOpen, peerReads, sockClosed, readerClosed, writer, sl, wl, handlerStop, writeStop, serve>>
+              /\ UNCHANGED <<wire, peerOpen, peerReads, sockClosed, readerClosed, writer, sl, wl, handlerStop, writeStop, respLeft, serve>>
+\* sc.write(): queue the frame; give up once writeStop is closed; (repaired) give up once the write loop has gone
+RL_Write == /\ rl = "write"
+            /\ \/ (writer < WriterCap /\ writer' = writer + 1)
+               \/ (writeStop /\ writer' = writer)
+               \/ ("WriteBlocksAfterWriteLoopExit" \notin Defects /\ wl = "done" /\ writer' = writer)
+            /\ rl' = "run"
+            /\ UNCHANGED <<wire, peerOpen, peerReads, sockClosed, reader, readerClosed, sl, wl, handlerStop, writeStop, respLeft, serve>>
+\* (repaired) the read loop looks at handlerStop before every read: without the stream loop there is nobody to serve
+RL_StreamLoopGone == /\ "ReadLoopOutlivesStreamLoop" \notin Defects
+                     /\ rl = "run" /\ handlerStop
+                     /\ rl' = "done"
+                     /\ UNCHANGED <<wire, peerOpen, peerReads, sockClosed, reader, readerClosed, writer, sl, wl, handlerStop, writeStop, respLeft, serve>>
 \* the repaired hand-off also selects on handlerStop (closed when the stream loop leaves)
 RL_ForwardAbort == /\ "ReaderSendBlocks" \notin Defects
                    /\ rl = "fwd" /\ handlerStop
                    /\ rl' = "done"
-                   /\ UNCHANGED <<wire, peerOpen, peerReads, sockClosed, reader, readerClosed, writer, sl, wl, handlerStop, writeStop, serve>>
+                   /\ UNCHANGED <<wire, peerOpen, peerReads, sockClosed, reader, readerClosed, writer, sl, wl, handlerStop, writeStop, respLeft, serve>>
 
 \* ---- stream loop: take a frame (it may answer by queueing a frame), or end on a connection error / closed reader
 SL_Take == /\ sl = "run" /\ reader > 0
            /\ reader' = reader - 1
-           /\ \/ (writer < WriterCap /\ writer' = writer + 1)     \* an answer is queued
-              \/ writer' = writer                                 \* nothing to say (or dropped because writeStop is closed)
-           /\ UNCHANGED <<wire, peerOpen, peerReads, sockClosed, readerClosed, rl, sl, wl, handlerStop, writeStop, serve>>
+           /\ sl' \in {"run", "write"}                             \* nothing to say, or an answer to queue with sc.write()
+           /\ UNCHANGED <<wire, peerOpen, peerReads, sockClosed, readerClosed, writer, rl, wl, handlerStop, writeStop, respLeft, serve>>
+\* a handler finished: its response is queued frame by frame (not driven by the peer at all)
+SL_Respond == /\ sl = "run" /\ respLeft > 0 /\ sl' = "write" /\ respLeft' = respLeft - 1
+              /\ UNCHANGED <<wire, peerOpen, peerReads, sockClosed, reader, readerClosed, writer, rl, wl, handlerStop, writeStop, serve>>
+SL_Write == /\ sl = "write"
+            /\ \/ (writer < WriterCap /\ writer' = writer + 1)
+               \/ ("WriteBlocksAfterWriteLoopExit" \notin Defects /\ wl = "done" /\ writer' = writer)
+            /\ sl' = "run"
+            /\ UNCHANGED <<wire, peerOpen, peerReads, sockClosed, reader, readerClosed, rl, wl, handlerStop, writeStop, respLeft, serve>>
 SL_Leave == /\ sl = "run"                                          \* connection error in the stream loop, or GOAWAY promise fulfilled
             /\ sl' = "done" /\ handlerStop' = TRUE /\ writeStop' = TRUE
-            /\ UNCHANGED <<wire, peerOpen, peerReads, sockClosed, reader, readerClosed, writer, rl, wl, serve>>
+            /\ UNCHANGED <<wire, peerOpen, peerReads, sockClosed, reader, readerClosed, writer, rl, wl, respLeft, serve>>
 SL_ReaderClosed == /\ sl = "run" /\ readerClosed /\ reader = 0
                    /\ sl' = "done" /\ handlerStop' = TRUE /\ writeStop' = TRUE
-                   /\ UNCHANGED <<wire, peerOpen, peerReads, sockClosed, reader, readerClosed, writer, rl, wl, serve>>
+                   /\ UNCHANGED <<wire, peerOpen, peerReads, sockClosed, reader, readerClosed, writer, rl, wl, respLeft, serve>>
 
 \* ---- write loop: write queued frames; a write blocks while the peer does not read and fails once the socket is closed
 WL_Write == /\ wl = "run" /\ writer > 0 /\ (peerReads \/ sockClosed \/ ~peerOpen)
             /\ IF sockClosed \/ ~peerOpen THEN wl' = "done" /\ sockClosed' = TRUE /\ writer' = writer
                ELSE wl' = wl /\ sockClosed' = sockClosed /\ writer' = writer - 1
-            /\ UNCHANGED <<wire, peerOpen, peerReads, reader, readerClosed, rl, sl, handlerStop, writeStop, serve>>
+            /\ UNCHANGED <<wire, peerOpen, peerReads, reader, readerClosed, rl, sl, handlerStop, writeStop, respLeft, serve>>
 WL_Drain == /\ wl = "run" /\ writeStop /\ (writer = 0 \/ peerReads \/ sockClosed \/ ~peerOpen)
             /\ wl' = "done" /\ writer' = 0 /\ sockClosed' = TRUE      \* deferred c.Close() of the write loop goroutine
-            /\ UNCHANGED <<wire, peerOpen, peerReads, reader, readerClosed, rl, sl, handlerStop, writeStop, serve>>
+            /\ UNCHANGED <<wire, peerOpen, peerReads, reader, readerClosed, rl, sl, handlerStop, writeStop, respLeft, serve>>
 
 \* ---- Serve: when readLoop returns, close(sc.reader), wait (bounded) for the write loop, return; ServeConn closes the socket
 Serve_ReadLoopReturned == /\ serve = "run" /\ rl = "done"
                           /\ serve' = "wait" /\ readerClosed' = TRUE
-                          /\ UNCHANGED <<wire, peerOpen, peerReads, sockClosed, reader, writer, rl, sl, wl, handlerStop, writeStop>>
+                          /\ UNCHANGED <<wire, peerOpen, peerReads, sockClosed, reader, writer, rl, sl, wl, handlerStop, writeStop, respLeft>>
 Serve_Return == /\ serve = "wait"                                  \* write loop finished, or the drain timeout fired
                 /\ serve' = "ret" /\ sockClosed' = TRUE
-                /\ UNCHANGED <<wire, peerOpen, peerReads, reader, readerClosed, writer, rl, sl, wl, handlerStop, writeStop>>
+                /\ UNCHANGED <<wire, peerOpen, peerReads, reader, readerClosed, writer, rl, sl, wl, handlerStop, writeStop, respLeft>>
 
-Server == RL_Read \/ RL_EOF \/ RL_Forward \/ RL_ForwardAbort \/ SL_Take \/ SL_ReaderClosed \/ WL_Write \/ WL_Drain \/ Serve_ReadLoopReturned \/ Serve_Return
-Env == PeerSend \/ PeerClose \/ PeerStopsReading \/ SL_Leave
+Server == RL_Read \/ RL_EOF \/ RL_Forward \/ RL_ForwardAbort \/ RL_Write \/ RL_StreamLoopGone \/ SL_Take \/ SL_Write \/ SL_ReaderClosed
+          \/ WL_Write \/ WL_Drain \/ Serve_ReadLoopReturned \/ Serve_Return
+Env == PeerSend \/ PeerClose \/ PeerStopsReading \/ SL_Leave \/ SL_Respond
 Next == Server \/ Env
 
 \* the server's own steps are weakly fair; the peer and the occurrence of errors are not constrained
 Spec == Init /\ [][Next]_vars /\ WF_vars(RL_Read) /\ WF_vars(RL_EOF) /\ WF_vars(RL_Forward) /\ WF_vars(RL_ForwardAbort)
+             /\ WF_vars(RL_Write) /\ WF_vars(RL_StreamLoopGone) /\ WF_vars(SL_Write)
              /\ WF_vars(SL_Take) /\ WF_vars(SL_ReaderClosed) /\ WF_vars(WL_Write) /\ WF_vars(WL_Drain)
              /\ WF_vars(Serve_ReadLoopReturned) /\ WF_vars(Serve_Return)
 
-TypeOK == /\ wire \in 0..MaxWire /\ reader \in 0..ReaderCap /\ writer \in 0..WriterCap
-          /\ rl \in {"run", "fwd", "done"} /\ sl \in {"run", "done"} /\ wl \in {"run", "done"} /\ serve \in {"run", "wait", "ret"}
+TypeOK == /\ respLeft \in 0..MaxResp /\ wire \in 0..MaxWire /\ reader \in 0..ReaderCap /\ writer \in 0..WriterCap
+          /\ rl \in {"run", "fwd", "write", "done"} /\ sl \in {"run", "write", "done"} /\ wl \in {"run", "done"} /\ serve \in {"run", "wait", "ret"}
 
 \* C10: once the stream loop has ended the connection (connection error, or promised streams done), Serve returns -
 \* whatever the peer goes on doing.  C17: once the peer is gone, Serve returns and every loop has exited.
